@@ -176,6 +176,36 @@ def discover(spec, tier):
     return out
 
 
+class Slot:
+    """Machine-wide bound on concurrently running solver processes, across checks that happen to be
+    started in parallel: one of VERIF_SLOTS lock files must be held while a harness runs."""
+
+    def __init__(self):
+        self.n = int(os.environ.get("VERIF_SLOTS", "10"))
+        self.f = None
+
+    def __enter__(self):
+        d = os.path.join(CACHE_ROOT, "slots")
+        os.makedirs(d, exist_ok=True)
+        while True:
+            for i in range(self.n):
+                f = open(os.path.join(d, f"slot-{i}"), "w")
+                try:
+                    fcntl.flock(f, fcntl.LOCK_EX | fcntl.LOCK_NB)
+                    self.f = f
+                    return self
+                except OSError:
+                    f.close()
+            time.sleep(2)
+
+    def __exit__(self, *a):
+        try:
+            fcntl.flock(self.f, fcntl.LOCK_UN)
+            self.f.close()
+        except Exception:
+            pass
+
+
 def limit_mem():
     lim = MEM_GB * (1 << 30)
     try:
@@ -436,7 +466,8 @@ def run_kani_property(pid, tier, seed, replay=None):
         log(f"[{pid}] build ok ({time.time()-t0:.0f}s)")
 
         def work(h):
-            out, rc, to, wall = run_kani(sc, h, timeout)
+            with Slot():
+                out, rc, to, wall = run_kani(sc, h, timeout)
             r = classify(h, out, rc, to, pid)
             r["wall_s"] = round(wall, 1)
             r["doc"] = h["doc"]
